@@ -4,6 +4,8 @@
 //! `wide.rs`: the regimes moderate sampling never reaches — structured families (affine non-TRS, triangular, block,
 //! sparse, permutation, ...), exact power-of-two scaling of all entries / of the affine blocks / per row and column, and
 //! per-axis scales over the whole documented domain of the affine fast inverse, in Rat, f64 and f32.
+//! `exact.rs`: nearly singular dyadic matrices all of whose intermediates are exactly representable in f32 / f64:
+//! determinant and inverse must be exact however deep the cancellation.
 
 use vek::mat::repr_c::column_major as cm;
 use vek::mat::repr_c::row_major as rm;
@@ -235,7 +237,7 @@ pub fn property() -> Property {
     tape!("inverse-exact-f64", xi, 96, 4_000, 200_000, exact::inverse_exact::<f64>);
     Property {
         id: "C06",
-        rule: "generated matrices with small rational / float entries (general), rational rotations from integer quaternions times translation (rigid), times per-axis scale of either sign (TRS); singular matrices are discarded and counted; non-trivial = no zero entry in the upper-left 3x3 (whole matrix for determinants), A != A^T, and non-uniform scale for TRS; distinct = distinct consumed tape prefix. Regime checks (*-structured, *-wide): an exact rational base matrix of moderate magnitude from a labelled structured family, times an exact power-of-two row/column scaling M' = diag(2^r) M diag(2^c) (all entries; linear part and translation of an affine matrix independently; per-axis scale exponents over the whole documented domain of the affine inverse; per row and column for determinants); vek's result is scaled back exactly and compared with the exact rational inverse / determinant at the base level. Non-trivial there = at most 5 zeros in the upper-left 3x3, A != A^T and (floats) tolerance <= |inverse|/64 (structured); rotation without zero entry and non-uniform scale resp. non-zero translation (TRS / rigid wide); fewer than N*N-N zero entries and A != A^T (determinants)",
+        rule: "generated matrices with small rational / float entries (general), rational rotations from integer quaternions times translation (rigid), times per-axis scale of either sign (TRS); singular matrices are discarded and counted; non-trivial = no zero entry in the upper-left 3x3 (whole matrix for determinants), A != A^T, and non-uniform scale for TRS; distinct = distinct consumed tape prefix. Regime checks (*-structured, *-wide): an exact rational base matrix of moderate magnitude from a labelled structured family, times an exact power-of-two row/column scaling M' = diag(2^r) M diag(2^c) (all entries; linear part and translation of an affine matrix independently; per-axis scale exponents over the whole documented domain of the affine inverse; per row and column for determinants); vek's result is scaled back exactly and compared with the exact rational inverse / determinant at the base level. Non-trivial there = at most 5 zeros in the upper-left 3x3, A != A^T and (floats) tolerance <= |inverse|/64 (structured); rotation without zero entry and non-uniform scale resp. non-zero translation (TRS / rigid wide); |det| <= 2^16 eps * sum|terms| (exact regime); fewer than N*N-N zero entries and A != A^T (determinants)",
         assumptions: &[
             "rustc and the proptest runner/shrinker are trusted",
             "vkit::refmath: Leibniz determinant and adjugate inverse on plain arrays are the oracles; in the regime checks they are evaluated in exact rational arithmetic on the unscaled base matrix also for the float domains (the float input equals the rational base exactly where its entries are dyadic, and within 2 roundings per entry for rotation entries a/n)",
@@ -245,6 +247,7 @@ pub fn property() -> Property {
             "mixed magnitudes inside one matrix (one row / one column / the translation / one element scaled by 2^k, one line 2^k and another 2^-l): the exponent is drawn up to 2^124 (f32) / 2^1000 (f64) / 2^40 (Rat, and for a single element, whose oracle is the rational inverse of the modified base) and then reduced (x -> 3x/4) until every product of 1..4 non-zero entries from distinct rows and columns, the determinant, its reciprocal and every entry of the result lie within 2^+-118 (f32) / 2^+-1010 (f64) / 2^+-100 (Rat): exactly the products a Leibniz, cofactor or 2x2-block evaluation forms (partial products of terms ending in a structural zero included), so nothing is asserted where such an evaluation over/underflows. vek's own M * inv(M) and det(AB) are only formed where their terms stay in that window. Float matrices whose determinant is below 256 eps * (sum of the absolute Leibniz terms) are discarded: there any evaluation may return det = 0",
             "general inverse on structured families, entry-wise: |d inv_ij| <= 64 eps ((perm|minor_ji| + |inv_ij| perm|M|)/|det| + |inv_ij|) at the base level (a-priori bound of a signed-monomial evaluation with constant ~10; structural zeros drop out, so the linear part of an affine matrix never sees the size of its translation)",
             "float-rounded rotations (*-rounded): the rotation is computed in f64 (sin/cos, Rodrigues, via a unit quaternion) and rounded to the domain; the reference S^-1 R^T [I | -t] comes from the f64 rotation, the two-sided residual is evaluated in doubled precision (Dot2) on the matrix exactly as stored and must be <= 16 eps (64 eps in the f64 domain, whose rotations are themselves only orthogonal to ~12 eps) * {3 | 3 m_j/m_i | 6|t| | 4|t|/m_i}, the size of the terms of that entry; a rotation block off by less than ~50 eps (angle below 2^-17 in f32) is therefore not distinguished from rounding",
+            "exact-arithmetic regime (*-exact, f32 and f64): a case is accepted only if (1) every product of 1..N non-zero entries from distinct rows and columns has at most 24 / 53 significant bits and (2) for every square minor the larger of (sum of its positive, sum of its negative signed Leibniz monomials), divided by 2^(smallest monomial exponent), has at most 24 / 53 bits (verified per case in i128; the power-of-two scaling is kept inside the range window). Then every sub-product and every sub-sum of signed monomials of one minor is representable, so a Leibniz sum in any order, a cofactor expansion and vek's 2x2-block formulas (the same monomials regrouped) are exact with or without fma. Asserted: determinant() == exact determinant bit for bit (including exactly 0 for exactly singular cases); inverted()[i][j] == adj_ij / det exactly when det is +-2^k, and within 2 eps (one reciprocal + one product rounding, or one division) otherwise, decided in integer arithmetic; on axis permutation * (+-2^k) scales + dyadic translation all three inverses are exact. An evaluation that forms other intermediates (e.g. pivoted elimination) is not covered by this exactness argument. The float-conditioning discard of the structured families (|det| < 256 eps sum|terms|) does not apply here: no rounding occurs",
             "affine fast inverse: the documented domain is |column|^2 > T::epsilon() (the epsilon substitution branch); per-axis scales are kept at s^2 >= 1.75 epsilon (|s| >= 2^-11 in f32, 2^-25 in f64 and Rat, whose epsilon is 2^-52) and <= 2^21 (f32) / 2^41 (f64) / 2^31 (Rat); the substitution branch itself (negligibly small scales) is outside the property and is not exercised",
         ],
         checks,
